@@ -376,11 +376,16 @@ class P2Sock (object):
     self.calls = []              # (offered, outcome, thread name)
     self.setup = True            # the HELLO written by Connection.__init__ is not part of the scenario
     self.shut = False; self.closed = False; self.eof = False; self.broken = False
+    # back-pressure model (scenarios with c["backlog"]): after a short write or EAGAIN the socket's buffer is
+    # full: select does not report it writable and sends fail with EAGAIN until the peer thread drains it
+    self.backpressure = False; self.blocked = False
+    self.defaults = []           # the scenario's own default outcome of the 1st, 2nd ... scripted call
+    self.nscripted = 0
   def fileno (self): return -1 if self.closed else 10 + self.idx
   def getpeername (self): return ("switch", self.idx)
   def setblocking (self, b): pass
   def readable (self): return (not self.closed) and (self.shut or self.eof)
-  def writable (self): return not self.closed
+  def writable (self): return (not self.closed) and (self.shut or not self.blocked)
   def send (self, data, flags=0):
     if self.setup: return len(data)
     W = self.W; W.live()
@@ -394,8 +399,14 @@ class P2Sock (object):
     if self.broken:                # a fatal error is sticky: the connection is gone
       self.calls.append((n, "after-fatal", who))
       raise _socket.error(errno.EPIPE, "broken pipe")
-    kind, k = W.script.outcome(n, "sock%d.send" % self.idx)
+    if self.blocked:
+      self.calls.append((n, "eagain-full", who))
+      raise _socket.error(errno.EAGAIN, "would block")
+    dflt = self.defaults[self.nscripted] if self.nscripted < len(self.defaults) else "all"
+    self.nscripted += 1
+    kind, k = W.script.outcome(n, "sock%d.send" % self.idx, dflt)
     self.calls.append((n, kind, who))
+    if self.backpressure and kind in ("one", "nm1", "half", "eagain"): self.blocked = True
     if kind == "eagain": raise _socket.error(errno.EAGAIN, "would block")
     if kind == "epipe":
       self.broken = True
@@ -503,6 +514,8 @@ def p2_exec (ctx, c):
   W.expected = [b"" for _ in range(c["ncons"])]
   for i in range(c["ncons"]):
     sk = P2Sock(W, i)
+    if c.get("backlog"):
+      sk.backpressure = True; sk.defaults = list(c["backlog"][i])
     con = of01.Connection(sk)
     sk.setup = False
     con.dpid = i + 1; con.ofnexus = nexus; nexus._connections[i + 1] = con; con.connect_time = 1.0
@@ -512,8 +525,29 @@ def p2_exec (ctx, c):
     W.cons.append(con); W.socks.append(sk)
   W.coop_done = False
 
+  def deferred_idle ():
+    t = S.threads[0]
+    return t.state == "done" or (t.state == "blocked" and not t.pred())
+
+  def peer ():
+    """The other end of the wire reading: a full socket buffer drains (one socket per step)."""
+    while True:
+      S.block(lambda: any(sk.blocked and not sk.closed for sk in W.socks), what="peer drain")
+      for sk in W.socks:
+        if sk.blocked and not sk.closed:
+          sk.blocked = False
+          S.point("drained%d" % sk.idx)
+          break
+
   def coop ():
-    for ci, mi in c["plan"]:
+    for pi, (ci, mi) in enumerate(c["plan"]):
+      if pi in c.get("waits", ()):
+        # the next message is sent "later": after the deferred sender had its chance to flush
+        went_idle = [False]
+        def later ():
+          if deferred_idle(): went_idle[0] = True      # latched: evaluated at every switch while we wait
+          return went_idle[0]
+        S.block(later, what="later")
       W.expected[ci] += MSGS[mi]
       W.cons[ci].send(MSGS[mi])
       S.point("sent")
@@ -534,6 +568,7 @@ def p2_exec (ctx, c):
             k.close()
     W.coop_done = True
 
+  if c.get("backlog"): S.spawn(peer, name="peer")
   S.spawn(coop, name="coop")
   leaked = S.run(first=0)
   v = S.verdict
@@ -589,19 +624,26 @@ def p2_exec (ctx, c):
 
 
 def p2_name (c):
-  return "p2/%dcon%s%s%s%s/plan%s" % (c["ncons"], "" if c.get("eof") is None else "/eof%d" % c["eof"],
+  bl = ""
+  if c.get("backlog"):
+    bl = "/backlog[%s]%s" % ("|".join(",".join(x) for x in c["backlog"]),
+                             "/wait%s" % ",".join("%d" % w for w in c["waits"]) if c.get("waits") else "")
+  return "p2/%dcon%s%s%s%s/plan%s%s" % (c["ncons"], "" if c.get("eof") is None else "/eof%d" % c["eof"],
                                      "/pipebuf%d" % c["pipe_buf"] if c.get("pipe_buf") else "",
                                      "", "/rotate" if c.get("rotate") else "",
-                                     "".join("%d" % ci for ci, mi in c["plan"]))
+                                     "".join("%d" % ci for ci, mi in c["plan"]), bl)
 
 
 ONE = [(0, 0), (0, 1), (0, 2)]
 TWO = [(0, 0), (1, 1), (0, 2)]
+ABA = [(0, 0), (1, 1), (0, 2)]
+ABBA = [(0, 0), (1, 1), (1, 2), (0, 3)]
+BACKLOGS = [[["one", "eagain"], ["one"]], [["one", "eagain", "eagain"], ["one"]], [["nm1", "one"], ["eagain", "one"]]]
 
 def p2_configs (cfg):
   cs = []
-  def add (ncons, plan, eof=None, bound=2, sdev=2, **kw):
-    cs.append(dict(part=2, ncons=ncons, plan=plan, eof=eof, bound=bound, sdev=sdev, calls=4, **kw))
+  def add (ncons, plan, eof=None, bound=2, sdev=2, calls=4, **kw):
+    cs.append(dict(part=2, ncons=ncons, plan=plan, eof=eof, bound=bound, sdev=sdev, calls=calls, **kw))
   # (schedule deviations, script deviations)
   if not cfg.quick:
     add(1, ONE, 0, 3, 1)              # the largest items first (load balance)
@@ -613,6 +655,19 @@ def p2_configs (cfg):
     add(2, TWO, 0, b, s)
   add(1, ONE, None, 1, 2, pipe_buf=3)
   add(1, ONE, 0, 1, 2, pipe_buf=3)
+  # back-pressure scenarios: the DEFAULT socket scripts already put both connections into the deferred state
+  # (A: short write, then EAGAIN once or twice; B: short write, then everything), sockets are not writable
+  # while full, a peer thread drains them; the last message is sent after the deferred sender went idle
+  def addb (bl, plan, waits, b, s): add(2, plan, None, b, s, calls=6, backlog=BACKLOGS[bl], waits=waits)
+  if cfg.quick:
+    addb(1, ABA, [2], 2, 0); addb(0, ABA, [2], 2, 0)
+    addb(0, ABA, [2], 1, 1); addb(0, ABBA, [3], 1, 1); addb(0, ABA, [], 1, 1)
+    addb(0, ABBA, [3], 1, 0); addb(1, ABBA, [3], 1, 0)
+  else:
+    addb(0, ABA, [2], 2, 1); addb(1, ABA, [2], 2, 1)
+    for bl in range(len(BACKLOGS)):
+      for plan, waits in ((ABA, [2]), (ABBA, [3]), (ABA, [])):
+        addb(bl, plan, waits, 2, 0); addb(bl, plan, waits, 1, 1)
   if not cfg.quick:
     add(1, ONE, None, 2, 2, pipe_buf=3)
     add(1, ONE, 0, 2, 1, rotate=True)
